@@ -330,7 +330,7 @@ type World struct {
 // AddFresh appends n keys that own nothing at genesis (they can be invited and activated later).
 func (w *World) AddFresh(n int) {
 	for j := 0; j < n; j++ {
-		k := DetKey(w.Seed, 1000+j)
+		k := DetKey(w.Seed, 1000+len(w.Keys)+j) // distinct from the keys of an earlier call
 		w.Keys = append(w.Keys, k)
 		w.Addrs = append(w.Addrs, crypto.PubkeyToAddress(k.PublicKey))
 	}
